@@ -161,22 +161,24 @@ Ltac mstep :=
   | |- context [?b || _] => is_var b; destruct b
   | |- context [if ?b then _ else _] => is_var b; destruct b
   | |- context [match ?o with Some _ => _ | None => _ end] => is_var o; destruct o
+  | |- context [match ?f ?k with Some _ => _ | None => _ end] =>
+      match type of f with Z -> option Z => is_var f; destruct (f k) eqn:? end
   | |- context [?z =? 0] => destruct (Z.eqb_spec z 0)
   end.
 
 Ltac open_call c s :=
   unfold run_call;
-  destruct s as [oc os cx en tl aq lr];
-  destruct c as [|[xp xt xs xq]|cap| | |];
-  try (destruct cx as [[nt ns np ct cs cp]|]);
-  cbv [call_body cam_open cam_load cam_start cam_stop cam_close cam_params params_ctxt
+  destruct s as [oc os cx en tl aq lr tc bk];
+  destruct c as [|[xp xt xs xq xy]|cap| | | |kb|kp vp];
+  try (destruct cx as [[nt ns np ny ct cs cp cy cb]|]);
+  cbv [call_body cam_open cam_load cam_start cam_stop cam_close cam_params cam_bank cam_poke params_ctxt
        bindM get need ret fail panic do_op emit ctxt_loaded].
 
 Ltac open_state s :=
   unfold run_call;
-  destruct s as [oc os cx en tl aq lr];
-  try (destruct cx as [[nt ns np ct cs cp]|]);
-  cbv [call_body cam_open cam_load cam_start cam_stop cam_close cam_params params_ctxt
+  destruct s as [oc os cx en tl aq lr tc bk];
+  try (destruct cx as [[nt ns np ny ct cs cp cy cb]|]);
+  cbv [call_body cam_open cam_load cam_start cam_stop cam_close cam_params cam_bank cam_poke params_ctxt
        bindM get need ret fail panic do_op emit ctxt_loaded].
 
 Ltac crunch := repeat mstep; cbn -[Z.eqb Z.b2z].
@@ -269,7 +271,7 @@ Qed.
 
 Lemma inv_sc_b s : Inv s -> sc_b (dev_of s) = true.
 Proof.
-  unfold Inv, sc_b. destruct s as [oc os cx en tl aq lr]. cbn. destruct lr; [|reflexivity].
+  unfold Inv, sc_b. destruct s as [oc os cx en tl aq lr tc bk]. cbn. destruct lr; [|reflexivity].
   intros H. destruct (H eq_refl) as (-> & -> & -> & _). reflexivity.
 Qed.
 
@@ -383,7 +385,7 @@ Lemma start_in_streaming fx cap pl s :
   run_call fx (CStart cap) pl s =
   {| r_res := Err E_IN_STREAMING; r_effs := []; r_nops := 0; r_atts := []; r_failed := None; r_cam := s |}.
 Proof.
-  destruct s as [oc os cx en tl aq lr]. cbn [loop_running]. intros ->. reflexivity.
+  destruct s as [oc os cx en tl aq lr tc bk]. cbn [loop_running]. intros ->. reflexivity.
 Qed.
 
 Lemma start_without_context cap pl s :
@@ -391,7 +393,7 @@ Lemma start_without_context cap pl s :
   run_call true (CStart cap) pl s =
   {| r_res := Err E_CTXT_MISSING; r_effs := []; r_nops := 0; r_atts := []; r_failed := None; r_cam := s |}.
 Proof.
-  destruct s as [oc os cx en tl aq lr]. cbn [loop_running ctxt]. intros -> ->. reflexivity.
+  destruct s as [oc os cx en tl aq lr tc bk]. cbn [loop_running ctxt]. intros -> ->. reflexivity.
 Qed.
 
 (* the pinned code enabled the stream on the device before noticing the missing context *)
@@ -400,7 +402,7 @@ Lemma start_without_context_v0 cap s :
   let r := run_call false (CStart cap) (fun _ => None) s in
   r_res r = Err E_CTXT_MISSING /\ r_effs r = [EnableStreaming] /\ stream_enabled (r_cam r) = true.
 Proof.
-  destruct s as [oc os cx en tl aq lr]. cbn [loop_running ctxt]. intros -> ->.
+  destruct s as [oc os cx en tl aq lr tc bk]. cbn [loop_running ctxt]. intros -> ->.
   repeat split.
 Qed.
 
@@ -503,7 +505,7 @@ Qed.
 (* a description lacking AcquisitionStop: outside the property (the description is assumed to
    define the three nodes); recorded to show the hypothesis of close_clean is needed *)
 Lemma close_needs_nodes :
-  let x := {| x_parses := true; x_tl := true; x_start := true; x_stop := false |} in
+  let x := {| x_parses := true; x_tl := true; x_start := true; x_stop := false; x_copy := false |} in
   ~ clean (final (run true no_failure ([COpen; CLoad x; CStart 3] ++ [CClose]))).
 Proof. cbv zeta. intros (_ & H & _). vm_compute in H. discriminate H. Qed.
 
@@ -515,6 +517,8 @@ Ltac mstep0 :=
   | |- context [?b || _] => is_var b; destruct b
   | |- context [if ?b then _ else _] => is_var b; destruct b
   | |- context [match ?o with Some _ => _ | None => _ end] => is_var o; destruct o
+  | |- context [match ?f ?k with Some _ => _ | None => _ end] =>
+      match type of f with Z -> option Z => is_var f; destruct (f k) eqn:? end
   | |- context [?z =? 0] => destruct (Z.eqb_spec z 0)
   end.
 
@@ -524,6 +528,31 @@ Ltac fstep Hj Hlt :=
   | |- context [match ?pl ?k with Some _ => _ | None => _ end] =>
       match type of pl with nat -> option Z => first [rewrite Hj | rewrite (Hlt k) by lia] end
   end.
+
+Definition failure_stops_at fx c plc s j cls : Prop :=
+  first_fail plc j cls ->
+  (j < r_nops (run_call fx c (fun _ => None) s))%nat ->
+  exists e, nth_error (r_effs (run_call fx c (fun _ => None) s)) j = Some e /\
+    r_failed (run_call fx c plc s) = Some (e, cls) /\
+    r_res (run_call fx c plc s) = Err (err_of e cls) /\
+    r_effs (run_call fx c plc s) = firstn j (r_effs (run_call fx c (fun _ => None) s)) /\
+    r_atts (run_call fx c plc s) = firstn j (r_effs (run_call fx c (fun _ => None) s)) ++ [e] /\
+    r_nops (run_call fx c plc s) = S j.
+
+Ltac fs_tac s j :=
+  let Hj := fresh "Hj" in let Hlt := fresh "Hlt" in let Hn := fresh "Hn" in
+  unfold failure_stops_at; intros [Hj Hlt]; open_state s; repeat mstep0;
+    cbn -[Z.eqb Z.b2z firstn nth_error Nat.lt lt]; intros Hn;
+    try (exfalso; lia); repeat (destruct j as [|j]; [|try (exfalso; lia)]);
+    repeat fstep Hj Hlt; cbn; eexists; repeat split; reflexivity.
+
+(* call by call (the case analysis of start, stop and close is the bulk of it) *)
+Lemma failure_stops_start fx cap plc s j cls : failure_stops_at fx (CStart cap) plc s j cls.
+Proof. fs_tac s j. Qed.
+Lemma failure_stops_stop fx plc s j cls : failure_stops_at fx CStop plc s j cls.
+Proof. fs_tac s j. Qed.
+Lemma failure_stops_close fx plc s j cls : failure_stops_at fx CClose plc s j cls.
+Proof. fs_tac s j. Qed.
 
 Lemma failure_stops fx c plc s j cls :
   first_fail plc j cls ->
@@ -535,10 +564,10 @@ Lemma failure_stops fx c plc s j cls :
     r_atts (run_call fx c plc s) = firstn j (r_effs (run_call fx c (fun _ => None) s)) ++ [e] /\
     r_nops (run_call fx c plc s) = S j.
 Proof.
-  intros [Hj Hlt]. open_call c s; repeat mstep0;
-    cbn -[Z.eqb Z.b2z firstn nth_error Nat.lt lt]; intros Hn;
-    destruct j as [|[|[|[|[|[|j]]]]]]; try (exfalso; lia);
-    repeat fstep Hj Hlt; cbn; eexists; repeat split; reflexivity.
+  change (failure_stops_at fx c plc s j cls).
+  destruct c as [|x|cap| | | |kb|kp vp];
+    [|destruct x as [xp xt xs xq xy]|apply failure_stops_start|apply failure_stops_stop|apply failure_stops_close| | |];
+    fs_tac s j.
 Qed.
 
 (* a planned failure at an operation the call does not reach changes nothing *)
@@ -588,11 +617,12 @@ Lemma start_cap0 fx plc s c0 :
   loop_running s = false -> ctxt s = Some c0 -> n_tl c0 = true -> n_start c0 = true ->
   (forall j, plc j = None) ->
   r_res (run_call fx (CStart 0) plc s) = Panic /\
-  r_effs (run_call fx (CStart 0) plc s) = [EnableStreaming; SetTLParamsLocked true; AcqStart] /\
+  r_effs (run_call fx (CStart 0) plc s) =
+    [EnableStreaming; SetTLParamsLocked true] ++ (if n_copy c0 then [CopyTL true] else []) ++ [AcqStart] /\
   loop_running (r_cam (run_call fx (CStart 0) plc s)) = false.
 Proof.
-  destruct s as [oc os cx en tl aq lr]. destruct c0 as [nt ns np ct cs cp].
-  cbn [loop_running ctxt n_tl n_start]. intros -> -> -> -> H.
+  destruct s as [oc os cx en tl aq lr tc bk]. destruct c0 as [nt ns np ny ct cs cp cy cb].
+  cbn [loop_running ctxt n_tl n_start n_copy]. intros -> -> -> -> H.
   unfold run_call.
   cbv [call_body cam_start params_ctxt bindM get need ret fail panic do_op emit ctxt_loaded].
   crunch; try congruence; repeat split.
@@ -635,12 +665,13 @@ Proof.
 Qed.
 
 (* non-vacuity: the intended session, its trace and its final state *)
-Definition xml_good : xmlv := {| x_parses := true; x_tl := true; x_start := true; x_stop := true |}.
+Definition xml_good : xmlv := {| x_parses := true; x_tl := true; x_start := true; x_stop := true; x_copy := false |}.
+Definition xml_copy : xmlv := {| x_parses := true; x_tl := true; x_start := true; x_stop := true; x_copy := true |}.
 
 Example session_example :
   let rs := run true no_failure [COpen; CLoad xml_good; CStart 3; CParams; CStop; CClose] in
   trace_of rs =
-    [CtrlOpen; StrmOpen; GenApiFetch; LoadCtxt true true true;
+    [CtrlOpen; StrmOpen; GenApiFetch; LoadCtxt true true true false;
      EnableStreaming; SetTLParamsLocked true; AcqStart; LoopStart;
      LoopStop; AcqStop; SetTLParamsLocked false; DisableStreaming;
      CtrlClose; StrmClose; ClearCache] /\
@@ -652,7 +683,7 @@ Proof. vm_compute. repeat split. Qed.
 Example failure_example :
   let rs := run true (plan_of [(2%nat, 2%nat, 1)]) [COpen; CLoad xml_good; CStart 3] in
   map r_res rs = [Ok (-1); Ok (-1); Err (E_GENAPI_DEVICE + 1)] /\
-  trace_of rs = [CtrlOpen; StrmOpen; GenApiFetch; LoadCtxt true true true;
+  trace_of rs = [CtrlOpen; StrmOpen; GenApiFetch; LoadCtxt true true true false;
                  EnableStreaming; SetTLParamsLocked true] /\
   loop_running (final rs) = false.
 Proof. vm_compute. repeat split. Qed.
@@ -693,4 +724,275 @@ Theorem params_value fx pl cs plc v :
   v = Z.b2z (tl_locked (final (run fx pl cs))).
 Proof.
   apply params_value_call. apply (run_coh fx pl cs 0%nat cam0). reflexivity.
+Qed.
+
+(* ---------------------------------------------------------------------- *)
+(* the register bank: one cache block per slot; close drops them           *)
+
+(* a close that returns Ok has dropped every cached bank block (it ended with clear_cache, or there
+   is no context at all) *)
+Lemma close_clears fx plc s v :
+  r_res (run_call fx CClose plc s) = Ok v ->
+  forall k, bank_cache (r_cam (run_call fx CClose plc s)) k = None.
+Proof. open_state s; crunch; intros H k; try discriminate H; reflexivity. Qed.
+
+(* a slot that is not cached stays uncached through every call that is not a read of that slot *)
+Lemma uncached_kept fx c plc s k :
+  bank_cache s k = None -> c <> CBank k -> bank_cache (r_cam (run_call fx c plc s)) k = None.
+Proof.
+  unfold bank_cache. open_call c s; cbn [ctxt c_bank]; intros H Hc; crunch;
+    try exact H; try reflexivity.
+  destruct (Z.eqb_spec k kb) as [->|_]; [exfalso; apply Hc; reflexivity|exact H].
+Qed.
+
+(* a block that is cached after a call was cached before it, or the call is a device read of that
+   slot which returned the cached value *)
+Lemma cached_origin fx c plc s k v :
+  bank_cache (r_cam (run_call fx c plc s)) k = Some v ->
+  bank_cache s k = Some v \/
+  (c = CBank k /\ r_effs (run_call fx c plc s) = [BankRead k] /\ r_res (run_call fx c plc s) = Ok v).
+Proof.
+  unfold bank_cache. open_call c s; cbn [ctxt c_bank]; crunch; intros H;
+    try discriminate H; try (left; exact H).
+  destruct (Z.eqb_spec k kb) as [->|_]; [|left; exact H].
+  right. injection H as <-. repeat split.
+Qed.
+
+(* the bank access, in any state *)
+Lemma bank_read_call fx plc s k :
+  let r := run_call fx (CBank k) plc s in
+  match r_res r with
+  | Ok v =>
+      (bank_cache s k = None /\ r_effs r = [BankRead k] /\ r_atts r = [BankRead k] /\ v = bank s k /\
+       bank_cache (r_cam r) k = Some v /\ bank (r_cam r) = bank s) \/
+      (bank_cache s k = Some v /\ r_effs r = [] /\ r_atts r = [] /\ r_cam r = s)
+  | Err e =>
+      r_effs r = [] /\ r_cam r = s /\
+      ((ctxt s = None /\ r_atts r = [] /\ e = E_CTXT_MISSING) \/
+       (exists cls, bank_cache s k = None /\ plc 0%nat = Some cls /\ r_atts r = [BankRead k] /\
+                    e = err_of (BankRead k) cls))
+  | Panic => False
+  end.
+Proof.
+  cbv zeta. unfold bank_cache. open_state s; cbn [ctxt c_bank]; crunch;
+    first [ solve [right; repeat split]
+          | solve [left; rewrite Z.eqb_refl; repeat split]
+          | solve [repeat split; right; eexists; repeat split]
+          | solve [repeat split; left; repeat split] ].
+Qed.
+
+Lemma run_from_length fx pl cs : forall i s, length (run_from fx pl i s cs) = length cs.
+Proof. induction cs as [|c cs IH]; intros i s; cbn [run_from length]; [reflexivity|rewrite IH; reflexivity]. Qed.
+
+Lemma final_from_app s a b : final_from s (a ++ b) = final_from (final_from s a) b.
+Proof.
+  revert s. induction a as [|r a IH]; intros s; cbn [app]; [reflexivity|].
+  rewrite !final_from_cons. apply IH.
+Qed.
+
+Lemma uncached_run fx pl cs k : forall i s,
+  bank_cache s k = None -> ~ In (CBank k) cs ->
+  bank_cache (final_from s (run_from fx pl i s cs)) k = None.
+Proof.
+  induction cs as [|c cs IH]; intros i s H Hn; cbn [run_from].
+  - exact H.
+  - rewrite final_from_cons. apply IH.
+    + apply uncached_kept; [exact H|]. intros ->. apply Hn. left. reflexivity.
+    + intros Hin. apply Hn. right. exact Hin.
+Qed.
+
+Lemma cached_origin_run fx pl cs k v : forall i s,
+  bank_cache (final_from s (run_from fx pl i s cs)) k = Some v ->
+  bank_cache s k = Some v \/
+  exists r, In r (run_from fx pl i s cs) /\ r_effs r = [BankRead k] /\ r_res r = Ok v.
+Proof.
+  induction cs as [|c cs IH]; intros i s H; cbn [run_from] in *.
+  - left. exact H.
+  - rewrite final_from_cons in H. destruct (IH _ _ H) as [H1|(r & Hin & He & Hr)].
+    + destruct (cached_origin _ _ _ _ _ _ H1) as [H0|(_ & He & Hr)]; [left; exact H0|].
+      right. eexists. split; [left; reflexivity|]. split; assumption.
+    + right. exists r. split; [right; exact Hin|]. split; assumption.
+Qed.
+
+Lemma app_eq_len {A} (a a' b b' : list A) :
+  length a = length a' -> a ++ b = a' ++ b' -> a = a' /\ b = b'.
+Proof.
+  revert a'. induction a as [|x a IH]; intros [|y a'] Hl H; try discriminate Hl.
+  - split; [reflexivity|exact H].
+  - cbn [app] in H. injection H as -> H. injection Hl as Hl.
+    destruct (IH _ Hl H) as [-> ->]. split; reflexivity.
+Qed.
+
+(* a session  cs1 . close . cs2 . read of slot k : its results, piece by piece *)
+Lemma run_close_read fx pl cs1 cs2 k :
+  let s1 := final (run fx pl cs1) in
+  let rc := run_call fx CClose (pl (length cs1)) s1 in
+  let rs2 := run_from fx pl (S (length cs1)) (r_cam rc) cs2 in
+  let s2 := final_from (r_cam rc) rs2 in
+  run fx pl (cs1 ++ CClose :: cs2 ++ [CBank k]) =
+    run fx pl cs1 ++ rc :: rs2 ++ [run_call fx (CBank k) (pl (length cs2 + S (length cs1))%nat) s2] /\
+  final (run fx pl (cs1 ++ CClose :: cs2)) = s2.
+Proof.
+  cbv zeta. unfold run, final. split.
+  - rewrite run_from_app. cbn [run_from]. rewrite Nat.add_0_r, run_from_app. reflexivity.
+  - rewrite run_from_app, final_from_app. cbn [run_from]. rewrite Nat.add_0_r, final_from_cons. reflexivity.
+Qed.
+
+Theorem cache_dropped_on_close pl cs1 cs2 k rs1 rc rs2 r v :
+  run true pl (cs1 ++ CClose :: cs2 ++ [CBank k]) = rs1 ++ rc :: rs2 ++ [r] ->
+  length rs1 = length cs1 ->
+  r_res rc = Ok (-1) ->
+  r_res r = Ok v ->
+  (~ In (CBank k) cs2 ->
+     r_effs r = [BankRead k] /\ r_atts r = [BankRead k] /\
+     v = bank (final (run true pl (cs1 ++ CClose :: cs2))) k) /\
+  (r_effs r = [] ->
+     exists r', In r' rs2 /\ r_effs r' = [BankRead k] /\ r_atts r' = [BankRead k] /\ r_res r' = Ok v).
+Proof.
+  intros E Hl Hc Hr.
+  destruct (run_close_read true pl cs1 cs2 k) as [E1 E2]. rewrite E1 in E. rewrite E2.
+  apply app_eq_len in E; [|unfold run; rewrite run_from_length; symmetry; exact Hl].
+  destruct E as [_ E]. injection E as E0 E. apply app_inj_tail in E as [E3 E4].
+  subst rc rs2 r. clear E1 E2.
+  set (s1 := final (run true pl cs1)) in *.
+  set (rc := run_call true CClose (pl (length cs1)) s1) in *.
+  set (rs2 := run_from true pl (S (length cs1)) (r_cam rc) cs2) in *.
+  set (s2 := final_from (r_cam rc) rs2) in *.
+  pose proof (close_clears true _ _ _ Hc) as Hclr. fold rc in Hclr.
+  pose proof (bank_read_call true (pl (length cs2 + S (length cs1))%nat) s2 k) as B.
+  cbv zeta in B. rewrite Hr in B. split.
+  - intros Hn.
+    assert (U : bank_cache s2 k = None) by (apply uncached_run; [apply Hclr|exact Hn]).
+    destruct B as [(_ & He & Ha & Hv & _)|(Hs & _)]; [|congruence].
+    split; [exact He|]. split; [exact Ha|exact Hv].
+  - intros He. destruct B as [(_ & He' & _)|(Hs & _)]; [rewrite He' in He; discriminate He|].
+    destruct (cached_origin_run _ _ _ _ _ _ _ Hs) as [H0|(r' & Hin & He' & Hr')].
+    + rewrite Hclr in H0. discriminate H0.
+    + exists r'. split; [exact Hin|]. split; [exact He'|]. split; [|exact Hr'].
+      destruct (run_in _ _ _ _ _ _ Hin) as (c & i & s' & ->).
+      destruct (attempts_call true c (pl i) s') as (_ & Ha & _). rewrite Ha, He'.
+      unfold failed_att. destruct (r_failed (run_call true c (pl i) s')) as [[e cls]|] eqn:Hf; [|reflexivity].
+      destruct (failed_res _ _ _ _ _ _ Hf) as [Hx _]. rewrite Hx in Hr'. discriminate Hr'.
+Qed.
+
+(* non-vacuity: slot 0 is read (7) and cached, the camera is closed, the device's slots change,
+   the camera is opened again (same context), slot 1 is read, then slot 0: a device read returning
+   the device's value 9, not the 7 cached before the close *)
+Example cache_example :
+  let rs := run true no_failure [COpen; CLoad xml_good; CPoke 0 7; CBank 0; CBank 0; CClose;
+                                 CPoke 0 9; CPoke 1 8; COpen; CBank 1; CBank 0; CBank 0] in
+  map r_res rs = [Ok (-1); Ok (-1); Ok (-1); Ok 7; Ok 7; Ok (-1); Ok (-1); Ok (-1); Ok (-1); Ok 8; Ok 9; Ok 9] /\
+  map r_effs (skipn 8 rs) = [[CtrlOpen; StrmOpen]; [BankRead 1]; [BankRead 0]; []] /\
+  map r_effs (firstn 5 (skipn 2 rs)) = [[BankPoke 0 7]; [BankRead 0]; []; [CtrlClose; StrmClose; ClearCache]; [BankPoke 0 9]].
+Proof. vm_compute. repeat split. Qed.
+
+(* ---------------------------------------------------------------------- *)
+(* TLParamsLocked with a <pValueCopy>: a failing copy write                *)
+
+(* whatever the call, the state and the plan: when the write of the mirror register is the operation
+   that failed, the call returns that error, the failed write is the last thing it attempted, and it
+   is start having done exactly EnableStreaming and the pValue write (no AcquisitionStart, no loop),
+   or stop / close having done exactly LoopStop, AcquisitionStop and the pValue write (no
+   DisableStreaming, no close of a channel, no cache clearing) *)
+Lemma copy_failed_call fx c plc s b cls :
+  r_failed (run_call fx c plc s) = Some (CopyTL b, cls) ->
+  r_res (run_call fx c plc s) = Err (err_of (CopyTL b) cls) /\
+  r_atts (run_call fx c plc s) = r_effs (run_call fx c plc s) ++ [CopyTL b] /\
+  loop_running (r_cam (run_call fx c plc s)) = false /\
+  ((b = true /\ (exists cap, c = CStart cap) /\
+    r_effs (run_call fx c plc s) = [EnableStreaming; SetTLParamsLocked true]) \/
+   (b = false /\ (c = CStop \/ c = CClose) /\
+    r_effs (run_call fx c plc s) = [LoopStop; AcqStop; SetTLParamsLocked false])).
+Proof.
+  open_call c s; crunch; intros Hf; try discriminate Hf; injection Hf as <- <-;
+    (split; [reflexivity|split; [reflexivity|split; [reflexivity|]]]);
+    first [ left; split; [reflexivity|split; [eexists; reflexivity|reflexivity]]
+          | right; split; [reflexivity|split; [(left; reflexivity) || (right; reflexivity)|reflexivity]] ].
+Qed.
+
+Theorem copy_failure_stops fx pl cs r b cls :
+  In r (run fx pl cs) -> r_failed r = Some (CopyTL b, cls) ->
+  r_res r = Err (E_GENAPI_DEVICE + cls) /\
+  r_atts r = r_effs r ++ [CopyTL b] /\
+  loop_running (r_cam r) = false /\
+  ((b = true /\ r_effs r = [EnableStreaming; SetTLParamsLocked true]) \/
+   (b = false /\ r_effs r = [LoopStop; AcqStop; SetTLParamsLocked false])) /\
+  exists k j, pl k j = Some cls /\ r_nops r = S j.
+Proof.
+  intros Hin Hf. destruct (run_in _ _ _ _ _ _ Hin) as (c & k & s' & ->).
+  destruct (copy_failed_call _ _ _ _ _ _ Hf) as (Hr & Ha & Hl & Hc).
+  destruct (failed_res _ _ _ _ _ _ Hf) as [_ (j & Hj & Hn)].
+  split; [exact Hr|]. split; [exact Ha|]. split; [exact Hl|]. split.
+  - destruct Hc as [(-> & _ & He)|(-> & _ & He)]; [left|right]; (split; [reflexivity|exact He]).
+  - exists k, j. split; assumption.
+Qed.
+
+(* non-vacuity: the description with the mirror; failure-free, and with the mirror write of start /
+   of stop failing with a Timeout *)
+Example copy_example :
+  let cs := [COpen; CLoad xml_copy; CStart 3; CStop; CClose] in
+  trace_of (run true no_failure cs) =
+    [CtrlOpen; StrmOpen; GenApiFetch; LoadCtxt true true true true;
+     EnableStreaming; SetTLParamsLocked true; CopyTL true; AcqStart; LoopStart;
+     LoopStop; AcqStop; SetTLParamsLocked false; CopyTL false; DisableStreaming;
+     CtrlClose; StrmClose; ClearCache] /\
+  clean (final (run true no_failure cs)) /\ tl_copy (final (run true no_failure cs)) = false /\
+  (let rs := run true (plan_of [(2%nat, 2%nat, 1)]) cs in
+   map r_res rs = [Ok (-1); Ok (-1); Err (E_GENAPI_DEVICE + 1); Ok (-1); Ok (-1)] /\
+   map r_atts rs = [[CtrlOpen; StrmOpen]; [GenApiFetch]; [EnableStreaming; SetTLParamsLocked true; CopyTL true];
+                    []; [CtrlClose; StrmClose]]) /\
+  (let rs := run true (plan_of [(3%nat, 3%nat, 1)]) cs in
+   map r_res rs = [Ok (-1); Ok (-1); Ok (-1); Err (E_GENAPI_DEVICE + 1); Ok (-1)] /\
+   nth 3 (map r_atts rs) [] = [LoopStop; AcqStop; SetTLParamsLocked false; CopyTL false] /\
+   stream_enabled (final rs) = true /\ tl_copy (final rs) = true).
+Proof. vm_compute. repeat split; reflexivity. Qed.
+
+(* ---------------------------------------------------------------------- *)
+(* clean close with the mirror: when every description loaded in the session declares the
+   <pValueCopy>, the mirror register is 0 after a clean close as well *)
+Definition copy_call (c : call) : Prop :=
+  match c with CLoad x => x_parses x = true -> x_copy x = true | _ => True end.
+
+Definition GC (s : cam) : Prop :=
+  G s /\ (forall c, ctxt s = Some c -> n_copy c = true) /\ (loop_running s = false -> tl_copy s = false).
+
+Lemma call_GC c plc s :
+  GC s -> good_call c -> copy_call c -> (forall j, plc j = None) -> GC (r_cam (run_call true c plc s)).
+Proof.
+  unfold GC, G. open_call c s;
+    cbn [ctxt loop_running stream_enabled tl_locked acquiring tl_copy good_call copy_call x_parses x_tl x_start x_stop x_copy];
+    intros ((G1 & G2 & G3) & G4 & G5) Hg Hc Hpl;
+    useG1 G1; try (pose proof (G4 _ eq_refl) as K4; cbn [n_copy] in K4; subst ny); crunch; fin.
+Qed.
+
+Lemma close_GC plc s :
+  GC s -> (forall j, plc j = None) -> tl_copy (r_cam (run_call true CClose plc s)) = false.
+Proof.
+  unfold GC, G. open_state s;
+    cbn [ctxt loop_running stream_enabled tl_locked acquiring tl_copy];
+    intros ((G1 & G2 & G3) & G4 & G5) Hpl;
+    useG1 G1; try (pose proof (G4 _ eq_refl) as K4; cbn [n_copy] in K4; subst ny); crunch; fin.
+Qed.
+
+Lemma run_GC pl cs : forall i s,
+  (forall i j, pl i j = None) -> GC s -> Forall good_call cs -> Forall copy_call cs ->
+  GC (final_from s (run_from true pl i s cs)).
+Proof.
+  induction cs as [|c cs IH]; intros i s Hpl Hs Hg Hc; cbn [run_from].
+  - exact Hs.
+  - rewrite final_from_cons. inversion Hg; subst. inversion Hc; subst.
+    apply IH; [exact Hpl| |assumption|assumption].
+    apply call_GC; [exact Hs|assumption|assumption|apply Hpl].
+Qed.
+
+Lemma GC0 : GC cam0.
+Proof. split; [exact G0|]. split; [intros c H; discriminate H|reflexivity]. Qed.
+
+Theorem close_clean_copy pl cs :
+  (forall i j, pl i j = None) -> Forall good_call cs -> Forall copy_call cs ->
+  tl_copy (final (run true pl (cs ++ [CClose]))) = false.
+Proof.
+  intros Hpl Hg Hc. rewrite run_snoc, final_snoc.
+  pose proof (run_GC pl cs 0%nat cam0 Hpl GC0 Hg Hc) as HG. fold (run true pl cs) in HG.
+  apply close_GC; [exact HG|apply Hpl].
 Qed.
